@@ -182,7 +182,8 @@ class Universe:
     """memoised tree of nodes addressed by path (tuple of step labels).  step(parent, label) must be a
     pure function returning (txs, miner, dt) or None when the payload does not apply at that parent."""
 
-    def __init__(self, root, payload_fn):
+    def __init__(self, root, payload_fn, default_kw=None):
+        self.default_kw = default_kw or {}
         self.root = root
         self.payload_fn = payload_fn
         self.nodes = {(): root}
@@ -204,7 +205,8 @@ class Universe:
             self.na.add(path)
             return None
         txs, miner, dt = r[:3]
-        kw = r[3] if len(r) > 3 else {}
+        kw = dict(self.default_kw)
+        kw.update(r[3] if len(r) > 3 else {})
         b = assemble(parent, txs, miner, parent.ts + dt, **kw)
         n = Node(b, parent, path=path)
         self.nodes[path] = n
